@@ -6,7 +6,7 @@ import json, os, shutil, subprocess, sys, time
 src, name, props = sys.argv[1], sys.argv[2], sys.argv[3:]
 dst = os.path.join("/verif/seeded", name)
 os.makedirs(dst, exist_ok=True)
-for f in ("patch.diff", "demo.md", "meta.json", "demo.diff", "demo_cmd.txt", "confirm.log"):
+for f in ("patch.diff", "demo.md", "meta.json", "demo.diff", "demo_cmd.txt", "confirm.log", "flaky.log"):
     if os.path.exists(os.path.join(src, f)) and os.path.realpath(src) != os.path.realpath(dst):
         shutil.copy(os.path.join(src, f), os.path.join(dst, f))
 assert subprocess.run(["git", "-C", "/repo", "status", "--porcelain"], capture_output=True, text=True).stdout.strip() == "", "/repo not clean"
